@@ -216,14 +216,38 @@ BuildImp(s) ==
   IN Scenario("imp", <<main, ItemFile("d1", <<"pkg">>, "parcelable", "Foo"), ItemFile("d2", <<"pkg">>, "interface", "Bar")>>, "a")
 
 -----------------------------------------------------------------------------
-Space == CASE Family = "dir" -> DirSpace
+(* C11: several diagnostics on one line, ambiguous imports, duplicate keys (rendered on ONE line) *)
+
+OrderSpace == [fam : {"order"}, kind : {"imps", "fwds", "ambig", "dupkey", "args", "mix"}, k : 2..4]
+
+BuildOrder(s) ==
+  LET U(j) == <<"u", "U" \o ToString(j)>>
+      imps == CASE s.kind \in {"imps", "mix"} -> [j \in 1..s.k |-> U(j)]
+                [] s.kind = "ambig" -> <<<<"pkg", "Foo">>, <<"other", "pkg", "Foo">>>> \o [j \in 1..(s.k - 2) |-> <<"zz" \o ToString(j), "Foo">>]
+                [] s.kind = "dupkey" -> <<<<"pkg", "Foo">>>>
+                [] OTHER -> <<>>
+      fwds == IF s.kind \in {"fwds", "mix"} THEN [j \in 1..s.k |-> <<"F" \o ToString(j)>>] ELSE <<>>
+      args == CASE s.kind \in {"ambig", "dupkey"} -> <<Arg("in", Named(<<"Foo">>), "x"), Arg("", Arr(Named(<<"Foo">>)), "y")>>
+                [] s.kind \in {"args", "mix"} -> [j \in 1..s.k |-> Arg("out", Prim("int"), "a" \o ToString(j))]
+                [] OTHER -> <<>>
+      main == File("a", <<"p">>, imps, fwds, "interface", "I", FALSE, <<Method(FALSE, Void, "m", args, "")>>)
+      rest == CASE s.kind = "ambig" -> <<ItemFile("d1", <<"pkg">>, "parcelable", "Foo"), ItemFile("d2", <<"other", "pkg">>, "interface", "Foo")>>
+                [] s.kind = "dupkey" -> <<ItemFile("d1", <<"pkg">>, "parcelable", "Foo"), ItemFile("d2", <<"pkg">>, "enum", "Foo")>>
+                                        \o (IF s.k > 2 THEN <<ItemFile("d3", <<"pkg">>, "interface", "Foo")>> ELSE <<>>)
+                [] OTHER -> <<>>
+  IN [fam |-> "order", main |-> "a", layout |-> "oneline", files |-> [k \in DOMAIN (<<main>> \o rest) |-> Doc((<<main>> \o rest)[k])]]
+
+-----------------------------------------------------------------------------
+Space == CASE Family = "order" -> OrderSpace
+           [] Family = "dir" -> DirSpace
            [] Family = "cont" -> ContSpace
            [] Family = "meth" -> MethSpace
            [] Family = "ow" -> OwSpace
            [] Family = "res" -> ResSpace
            [] Family = "imp" -> ImpSpace
 
-Build(s) == CASE s.fam = "dir" -> BuildDir(s)
+Build(s) == CASE s.fam = "order" -> BuildOrder(s)
+              [] s.fam = "dir" -> BuildDir(s)
               [] s.fam \in {"cont", "cont2"} -> BuildCont(s)
               [] s.fam = "meth" -> BuildMeth(s)
               [] s.fam = "ow" -> BuildOw(s)
